@@ -717,33 +717,38 @@ float_total!(float_f_prec0, 0, true);
 float_total!(float_e_prec0, 1, true);
 //@harness name=float_g_prec0 tier=thorough timeout=3600 unwind=32 spurious="iv >= 0.0|render_integer receives sign" desc="%.0g never panics (the scientific branch uses powf, over-approximated by CBMC: a failure of render_integer's sign assertion counts only when it reproduces natively)" bounds="value: every finite double; width <= 12; every flag subset"
 float_total!(float_g_prec0, 2, true);
-//@harness tier=quick timeout=600 desc="%f with a precision beyond the double exponent range (10^precision is infinite): must not panic" bounds="precision 309..=320 and 65530..=65535, value: every finite double with |v| >= 1, width <= 12"
-#[kani::proof]
-#[kani::unwind(32)]
-pub fn float_f_bigprec() {
-    let flags = any_flags();
-    let width: u16 = kani::any();
-    kani::assume(width <= 12);
-    let prec: u16 = kani::any();
-    kani::assume((prec >= 309 && prec <= 320) || prec >= 65530);
-    let v: f64 = kani::any();
-    // |v| >= 1: the scaled value is +inf on every path (for smaller values CBMC's fused multiply-add model
-    // lets some paths continue into `precision` iterations of zero padding, beyond any unwinding bound)
-    kani::assume(v.is_finite() && v.abs() >= 1.0);
-    let code = Code { mkey: "", cflags: flags, width: Width::Fixed(width), precision: Some(Width::Fixed(prec)), convtype: ConvTypeV::Float, caps: false };
-    #[cfg(verif_playback)]
-    {
-        println!("REPLAY-INPUT: conv=f width={} prec={} value={:e}", width, prec, v);
-        println!("REPLAY-JSONNET: std.length(std.format({:?}, [{:e}]))", fmt_string(&code.cflags, Some(width), Some(prec), 'f'), v);
-        println!("REPLAY-EXPECT: nocrash");
-        println!("REPLAY-ROLE: C12.float.scale_leaves_double_range");
-    }
-    let mut out = FString::new();
-    let r = format_code(&mut out, &Val::Num(NumValue::new(v).unwrap()), &code, width, Some(prec));
-    assert!(r.is_ok(), "C12.float.total float conversion of a number must succeed");
-    kani::cover!(prec == 65535, "precision 65535 reached");
-    kani::cover!(prec == 309, "precision 309 reached");
+macro_rules! float_f_bigprec {
+    ($name:ident, $prec:literal) => {
+        #[kani::proof]
+        #[kani::unwind(32)]
+        pub fn $name() {
+            let flags = any_flags();
+            let width: u16 = kani::any();
+            kani::assume(width <= 12);
+            // the precision is concrete: CBMC evaluates 10^p exactly for a constant exponent only
+            let prec: u16 = $prec;
+            let v: f64 = kani::any();
+            kani::assume(v.is_finite());
+            let code = Code { mkey: "", cflags: flags, width: Width::Fixed(width), precision: Some(Width::Fixed(prec)), convtype: ConvTypeV::Float, caps: false };
+            #[cfg(verif_playback)]
+            {
+                println!("REPLAY-INPUT: conv=f width={} prec={} value={:e}", width, prec, v);
+                println!("REPLAY-JSONNET: std.length(std.format({:?}, [{:e}]))", fmt_string(&code.cflags, Some(width), Some(prec), 'f'), v);
+                println!("REPLAY-EXPECT: nocrash");
+                println!("REPLAY-ROLE: C12.float.scale_leaves_double_range");
+            }
+            let mut out = FString::new();
+            let r = format_code(&mut out, &Val::Num(NumValue::new(v).unwrap()), &code, width, Some(prec));
+            assert!(r.is_ok(), "C12.float.total float conversion of a number must succeed");
+            kani::cover!(v == 1.0, "value 1 reached");
+            kani::cover!(v < 0.0, "negative value reached");
+        }
+    };
 }
+//@harness name=float_f_prec400 tier=quick timeout=600 unwind=32 desc="%.400f (10^precision is infinite in f64): must not panic" bounds="precision 400, value: every finite double, width <= 12, every flag subset"
+float_f_bigprec!(float_f_prec400, 400);
+//@harness name=float_f_prec65535 tier=quick timeout=600 unwind=32 desc="%.65535f: must not panic" bounds="precision 65535, value: every finite double, width <= 12, every flag subset"
+float_f_bigprec!(float_f_prec65535, 65535);
 
 //@harness name=float_f_anyprec tier=thorough optional=1 timeout=3600 unwind=32 spurious="iv >= 0.0|render_integer receives sign|capacity exceeded" desc="%f with other precisions: panic freedom of the u16/cast arithmetic; CBMC's f64 remainder is non-deterministic, so a failure of render_integer's sign assertion (or of the accumulator capacity, fed by garbage digits) counts only when it reproduces natively" bounds="precision 0..=12, 300..=320, 65530..=65535; value: every finite double"
 float_total!(float_f_anyprec, 0, false);
